@@ -67,7 +67,7 @@ Qed.
    version and Connection header, and where a scripted disconnect falls *)
 Definition response_500 (n : nat) : list witem :=
   let body := if c_expose_tracebacks c then c_tb c else internal_error_text in
-  let er := mkReq (r_version r) (r_connection r) false (Some (err_InternalServerError, body)) in
+  let er := mkReq (r_version r) (r_connection r) false false (Some (err_InternalServerError, body)) in
   let x1 := task_service cap lower c er disc (new_task (r_version r) true, mkChan [] n)
                          (inr (err_InternalServerError, body)) in
   rev (ch_writes (snd (x_st x1))).
@@ -142,7 +142,7 @@ End Service.
 
 Definition sample_cfg : cfg :=
   mkCfg (lit "waitress") false true (lit "Thu, 01 Jan 2026 00:00:00 GMT") (lit "TB").
-Definition sample_req : req := mkReq (lit "1.1") None false None.
+Definition sample_req : req := mkReq (lit "1.1") None false false None.
 
 (* header pairs passed as LISTS and mutated after start_response validated them:
    response_headers.extend(headers) keeps references to the pair objects *)
